@@ -450,10 +450,13 @@ public:
 	*/
 	Array& append(const Array& b)
 	{
-		int n=length(), m=b.length(); // b may be this same array
+		int n=length(), m=b.length(); // b may be this same array...
+		const T* p = (b._a == _a) ? 0 : b._a; // ...or a handle stored inside one of its elements, which resize() can move: do not touch b afterwards
 		resize(n+m);
+		if (!p)
+			p = _a;
 		for (int i=0; i<m; i++)
-			_a[n+i] = b[i];
+			_a[n+i] = p[i];
 		return *this;
 	}
 	/**
